@@ -14,8 +14,14 @@ import (
 func symMessage(prefix string, maxMeta, maxPayload int) *Message {
 	m := NewMessage(vrt.Str(prefix+".uuid"), Payload(vrt.Bytes(prefix+".payload", maxPayload)))
 	n := vrt.Int(prefix+".nmeta", 0, maxMeta)
+	direct := vrt.Bool(prefix + ".metadata.filled.directly") // map index assignment (as a decoder would) or Metadata.Set
 	for i := 0; i < n; i++ {
-		m.Metadata.Set(vrt.Str(prefix+".k"+strconv.Itoa(i)), vrt.Str(prefix+".v"+strconv.Itoa(i)))
+		k, v := vrt.Str(prefix+".k"+strconv.Itoa(i)), vrt.Str(prefix+".v"+strconv.Itoa(i))
+		if direct {
+			m.Metadata[k] = v
+		} else {
+			m.Metadata.Set(k, v)
+		}
 	}
 	return m
 }
